@@ -1,0 +1,339 @@
+// Verification contracts (comment-only, compiled only with the "verif" build tag; read by /verif/govc).
+
+//go:build verif
+// +build verif
+
+package state
+
+// Property C07 — native tokens are conserved.
+//
+// One ghost integer, the LEDGER: the sum the property statement enumerates,
+//   Σ account balances + Σ validator Token + Σ validator RewardsDistributable + Σ FinalBalance of unfinished withdraw
+//   records + Σ role rewardsDistributable + global rewardsResidue + value detained by pending staking transactions
+//   + header.GasRewards in transit.
+// It is never computed. It is *moved* by the primitive mutators below (their ghost effect is the definition of what the
+// primitive means for the sum), and every function above them must leave it unchanged: value only moves.
+//@ ghost var c07Ledger: int
+
+// ---------------------------------------------------------------------------------------------------------------
+// Balances
+// ---------------------------------------------------------------------------------------------------------------
+
+// The one place a balance is written. Definition of the balance component of the ledger.
+//@ func (*stateObject).setBalance props C07
+//@ nobody
+//@ modifies so.data.Balance, c07Ledger
+//@ ensures so.data.Balance == amount
+//@ ensures c07Ledger == old(c07Ledger) + big(amount) - old(big(so.data.Balance))
+
+//@ func (*journal).append props C07
+//@ nobody
+//@ pure
+
+//@ func (*stateObject).SetBalance props C07
+//@ modifies so.data.Balance, c07Ledger
+//@ ensures [set] so.data.Balance == amount
+//@ ensures [ledger] c07Ledger == old(c07Ledger) + big(amount) - old(big(so.data.Balance))
+
+//@ func (*stateObject).Balance props C07
+//@ pure
+//@ ensures result == so.data.Balance
+
+//@ func (*stateObject).empty props C07
+//@ nobody
+//@ pure
+
+//@ func (*stateObject).touch props C07
+//@ nobody
+//@ pure
+
+//@ func (*stateObject).AddBalance props C07
+//@ requires so != nil
+//@ modifies so.data.Balance, c07Ledger
+//@ ensures [ledger] c07Ledger == old(c07Ledger) + big(amount)
+//@ ensures [balance] big(so.data.Balance) == old(big(so.data.Balance)) + big(amount)
+
+//@ func (*stateObject).SubBalance props C07
+//@ requires so != nil
+//@ modifies so.data.Balance, c07Ledger
+//@ ensures [ledger] c07Ledger == old(c07Ledger) - big(amount)
+//@ ensures [balance] big(so.data.Balance) == old(big(so.data.Balance)) - big(amount)
+
+// Looking up / creating the account object: a new account starts with balance 0, so the sum of balances is unchanged.
+// (The trie / cache machinery behind it is outside C07; C10/C13 territory.)
+//@ func (*StateDB).GetOrNewStateObject props C07
+//@ nobody
+//@ modifies nothing
+//@ ensures result != nil && result.data.Balance != nil && (fresh(result) || result.data == old(result.data))
+//@ ensures result != nil && fresh(result) ==> big(result.data.Balance) == 0
+
+//@ func (*StateDB).AddBalance props C07
+//@ modifies all(stateObject.data), c07Ledger
+//@ ensures [ledger] c07Ledger == old(c07Ledger) + big(amount)
+
+//@ func (*StateDB).SubBalance props C07
+//@ modifies all(stateObject.data), c07Ledger
+//@ ensures [ledger] c07Ledger == old(c07Ledger) - big(amount)
+
+// ---------------------------------------------------------------------------------------------------------------
+// Validator records
+// ---------------------------------------------------------------------------------------------------------------
+
+// The identity (main address) of the validator a record object describes. It is a function of the object: MainPubKey is
+// never changed after creation.
+//@ spec func c07KeyAddr(k: Slice) common.Address
+//@ spec func c07Addr(v: *Validator) common.Address = c07KeyAddr(v.MainPubKey)
+
+// What the ledger currently contains for a validator: the Token and RewardsDistributable of the record stored in the
+// state under that address ("current(addr)" of the plan). Moved only by UpdateValidator / CreateValidator.
+//@ ghost var c07Tok: map[common.Address]int
+//@ ghost var c07RD: map[common.Address]int
+
+// A record object whose amounts are exactly what the ledger holds for its validator.
+//@ spec func c07Current(v: *Validator) bool =
+//@     big(v.Token) == c07Tok[c07Addr(v)] && big(v.RewardsDistributable) == c07RD[c07Addr(v)]
+
+// The six amounts of a record are six distinct big.Int objects.
+//@ spec func c07ValWF(v: *Validator) bool =
+//@     v.Token != v.Stake && v.Token != v.SelfToken && v.Token != v.SelfStake && v.Token != v.RewardsDistributable && v.Token != v.RewardsTotal &&
+//@     v.Stake != v.SelfToken && v.Stake != v.SelfStake && v.Stake != v.RewardsDistributable && v.Stake != v.RewardsTotal &&
+//@     v.SelfToken != v.SelfStake && v.SelfToken != v.RewardsDistributable && v.SelfToken != v.RewardsTotal &&
+//@     v.SelfStake != v.RewardsDistributable && v.SelfStake != v.RewardsTotal && v.RewardsDistributable != v.RewardsTotal
+
+// Amounts are never negative (data invariant of stored records; ASSUMED on records read from the state).
+//@ spec func c07ValNonNeg(v: *Validator) bool =
+//@     big(v.Token) >= 0 && big(v.SelfToken) >= 0 && big(v.RewardsDistributable) >= 0
+
+//@ func (*Validator).MainAddress props C07
+//@ nobody
+//@ pure
+//@ ensures result == c07Addr(v)
+
+//@ func NewValidator props C07
+//@ modifies nothing
+//@ ensures [fresh] fresh(result) && c07ValWF(result) && fresh(result.Token) && fresh(result.Stake) && fresh(result.SelfToken) && fresh(result.SelfStake) && fresh(result.RewardsDistributable) && fresh(result.RewardsTotal)
+//@ ensures [amounts] big(result.Token) == big(token) && big(result.SelfToken) == big(token) && big(result.Stake) == big(stake) && big(result.SelfStake) == big(stake)
+//@ ensures [no-rewards] big(result.RewardsDistributable) == 0 && big(result.RewardsTotal) == 0
+//@ ensures [scalars] result.Role == role && result.Status == status && result.Coinbase == coinbase && result.CommissionRate == commissionRate && result.RiskObligation == riskObligation &&
+//@     result.RewardsLastSettled == 0 && result.MainPubKey == mainPubKey && result.Expelled == false && result.ExpelExpired == 0 && len(result.Delegations) == 0
+
+//@ func (*Validator).PartialCopy props C07
+//@ modifies nothing
+//@ ensures [fresh] fresh(result) && c07ValWF(result) && fresh(result.Token) && fresh(result.Stake) && fresh(result.SelfToken) && fresh(result.SelfStake) && fresh(result.RewardsDistributable) && fresh(result.RewardsTotal)
+//@ ensures [amounts] big(result.Token) == big(v.Token) && big(result.Stake) == big(v.Stake) && big(result.SelfToken) == big(v.SelfToken) && big(result.SelfStake) == big(v.SelfStake)
+//@ ensures [rewards] big(result.RewardsDistributable) == big(v.RewardsDistributable) && big(result.RewardsTotal) == big(v.RewardsTotal)
+//@ ensures [deref] v != nil
+//@ ensures [same-validator] c07Addr(result) == c07Addr(v)
+//@ ensures [scalars] result.Role == v.Role && result.Status == v.Status && result.Coinbase == v.Coinbase && result.CommissionRate == v.CommissionRate && result.RiskObligation == v.RiskObligation && result.RewardsLastSettled == v.RewardsLastSettled && result.Delegations == v.Delegations && result.MainPubKey == v.MainPubKey
+
+//@ func (*Validator).AddTotalRewards props C07
+//@ requires v.RewardsDistributable != v.RewardsTotal && reward != v.RewardsDistributable
+//@ modifies big(v.RewardsDistributable), big(v.RewardsTotal)
+//@ ensures [credited] big(v.RewardsDistributable) == old(big(v.RewardsDistributable)) + old(big(reward))
+//@ ensures [total] big(v.RewardsTotal) == old(big(v.RewardsTotal)) + old(big(reward))
+
+//@ func (*Validator).IsOnline props C07
+//@ pure
+//@ ensures result == (v.Status == params.ValidatorOnline)
+
+//@ func (*Validator).IsOffline props C07
+//@ pure
+//@ ensures result == (v.Status != params.ValidatorOnline)
+
+// Reading a record out of the state: what comes back is the stored record, i.e. its amounts are what the ledger holds
+// for that validator (ASSUMED: stored records are not mutated in place between UpdateValidator calls, see props/C07.json).
+//@ func (*StateDB).GetValidatorByMainAddr props C07
+//@ nobody
+//@ modifies nothing
+//@ ensures result != nil ==> c07Addr(result) == mainAddress && c07Current(result) && c07ValWF(result) && c07ValNonNeg(result)
+
+//@ func (*StateDB).GetValidatorsForUpdate props C07
+//@ nobody
+//@ modifies nothing
+//@ ensures forall i: int :: { result[i] } 0 <= i && i < len(result) ==> result[i] != nil && c07Current(result[i]) && c07ValWF(result[i]) &&
+//@     (result[i].Role == params.RoleChancellor || result[i].Role == params.RoleSenator || result[i].Role == params.RoleHouse)
+//@ ensures forall i: int, j: int :: { result[i], result[j] } 0 <= i && i < j && j < len(result) ==> c07Addr(result[i]) != c07Addr(result[j])
+// ownership: the amounts of stored records are not the scratch counters of the reward distribution (staking.tempRewardsRecord)
+//@ ensures forall i: int, r: *staking.tempRewardsRecord :: { result[i], r.total } 0 <= i && i < len(result) ==> result[i].Token != r.total && result[i].RewardsDistributable != r.total
+
+// THE primitive for validator records. `oldVal` must be (value-equal to) the record the ledger currently holds for this
+// validator: replacing a record on the basis of a stale copy would silently discard whatever was credited in between
+// ("rewards distributed to a validator are never lost by a later settlement" is this call-site obligation).
+// The ledger moves by the difference of the staked tokens and of the unsettled rewards.
+//@ func (*StateDB).UpdateValidator props C07
+//@ nobody
+//@ requires [non-nil] newVal != nil && oldVal != nil
+//@ requires [same-validator] c07Addr(newVal) == c07Addr(oldVal)
+//@ requires [current] c07Current(oldVal)
+//@ modifies c07Ledger, c07Tok, c07RD, st.validatorsStatModified, all(ValKindStat.onlineCount), all(ValKindStat.offlineCount)
+//@ ensures result
+//@ ensures c07Tok == store(old(c07Tok), c07Addr(newVal), big(newVal.Token)) && c07RD == store(old(c07RD), c07Addr(newVal), big(newVal.RewardsDistributable))
+//@ ensures c07Ledger == old(c07Ledger) + big(newVal.Token) - big(oldVal.Token) + big(newVal.RewardsDistributable) - big(oldVal.RewardsDistributable)
+
+// A new validator starts with token staked and no rewards. ASSUMED to succeed: handleCreate admits one pending create per
+// free address and period (GetValidatorByMainAddr == nil && !PendingValidatorExist), see props/C07.json.
+//@ func (*StateDB).CreateValidator props C07
+//@ nobody
+//@ modifies c07Ledger, c07Tok, c07RD, st.validatorsStatModified, all(ValKindStat.onlineCount), all(ValKindStat.offlineCount)
+//@ ensures newVal != nil && fresh(newVal) && c07ValWF(newVal) && c07Current(newVal)
+//@ ensures big(newVal.Token) == big(token) && big(newVal.RewardsDistributable) == 0
+//@ ensures c07Tok == store(old(c07Tok), c07Addr(newVal), big(token)) && c07RD == store(old(c07RD), c07Addr(newVal), 0)
+//@ ensures c07Ledger == old(c07Ledger) + big(token)
+
+// ---------------------------------------------------------------------------------------------------------------
+// Withdraw queue: a record contributes its FinalBalance to the ledger while Finished == 0.
+// ---------------------------------------------------------------------------------------------------------------
+
+// The queue object of a state (cached in an atomic.Value).
+//@ spec func c07Queue(st: *StateDB) *WithdrawQueue
+
+//@ func (*StateDB).GetWithdrawQueue props C07
+//@ nobody
+//@ modifies nothing
+//@ ensures result == c07Queue(st) && result != nil
+
+// Discards finished records only (the caller lists records with Finished == 1): no effect on the ledger.
+//@ func (*StateDB).RemoveWithdrawRecords props C07
+//@ nobody
+//@ modifies all(WithdrawQueue.Records)
+
+//@ func (*StateDB).GetBalance props C07
+//@ nobody
+//@ modifies nothing
+//@ ensures result != nil
+
+//@ func (*StateDB).AddWithdrawRecord props C07
+//@ nobody
+//@ requires [unfinished] record.Finished == 0
+//@ requires [non-negative] big(record.FinalBalance) >= 0
+//@ modifies c07Ledger
+//@ ensures c07Ledger == old(c07Ledger) + big(record.FinalBalance)
+
+//@ func NewWithdrawRecord props C07
+//@ nobody
+//@ modifies nothing
+//@ ensures fresh(result)
+
+// ---------------------------------------------------------------------------------------------------------------
+// Pending staking records and logs: bookkeeping only (the value detained by a pending transaction enters the ledger
+// at the handler that records it, see staking/verif_contracts_c07.go).
+// ---------------------------------------------------------------------------------------------------------------
+
+//@ func (*StateDB).GetStakingRecordValue props C07
+//@ nobody
+//@ modifies nothing
+//@ ensures fresh(result)
+
+//@ func (*StateDB).AddStakingRecord props C07
+//@ nobody
+//@ modifies nothing
+
+//@ func (*StateDB).PendingValidatorExist props C07
+//@ nobody
+//@ modifies nothing
+
+//@ func (*StateDB).AddLog props C07
+//@ nobody
+//@ modifies st.logSize
+
+// ---------------------------------------------------------------------------------------------------------------
+// Reward pools (per-role rewardsDistributable) and the global rounding residue: part of the ledger. They are *big.Int
+// mutated in place; the ghost updates are anchored at the mutation and move the ledger by (new value - old value).
+// ---------------------------------------------------------------------------------------------------------------
+
+// (stated with old(big(amount)): true also when `amount` aliases the field, so no aliasing precondition is needed)
+//@ func (*ValKindStat).AddRewards props C07
+//@ ghost before call (*math/big.Int).Add: c07Ledger := c07Ledger - big(a0)
+//@ ghost after call (*math/big.Int).Add: c07Ledger := c07Ledger + big(a0)
+//@ modifies big(v.rewardsDistributable), c07Ledger
+//@ ensures [pool-credited] big(v.rewardsDistributable) == old(big(v.rewardsDistributable)) + old(big(amount))
+//@ ensures [ledger] c07Ledger == old(c07Ledger) + old(big(amount))
+
+//@ func (*ValKindStat).ResetRewards props C07
+//@ ghost before call (*math/big.Int).Set: c07Ledger := c07Ledger - big(a0)
+//@ ghost after call (*math/big.Int).Set: c07Ledger := c07Ledger + big(a0)
+//@ modifies big(v.rewardsDistributable), c07Ledger
+//@ ensures [pool-set] big(v.rewardsDistributable) == old(big(total))
+//@ ensures [ledger] c07Ledger == old(c07Ledger) + old(big(total)) - old(big(v.rewardsDistributable))
+
+//@ func (*ValKindStat).SetRewardsResidue props C07
+//@ ghost before call (*math/big.Int).Set: c07Ledger := c07Ledger - big(a0)
+//@ ghost after call (*math/big.Int).Set: c07Ledger := c07Ledger + big(a0)
+//@ modifies big(v.rewardsResidue), c07Ledger
+//@ ensures [residue-set] big(v.rewardsResidue) == old(big(amount))
+//@ ensures [ledger] c07Ledger == old(c07Ledger) + old(big(amount)) - old(big(v.rewardsResidue))
+
+// The statistics object of a state (cached in an atomic.Value). ASSUMED data invariant: the three role buckets and the global bucket exist,
+// their pool / residue counters exist and are non-negative.
+//@ spec func c07Stat(st: *StateDB) *ValidatorsStat
+//@ spec func c07StatWF(m: *ValidatorsStat) bool =
+//@     m != nil && m.Roles[params.RoleChancellor] != nil && m.Roles[params.RoleSenator] != nil && m.Roles[params.RoleHouse] != nil && m.Kinds[params.KindValidator] != nil &&
+//@     m.Roles[params.RoleChancellor].rewardsDistributable != nil && m.Roles[params.RoleSenator].rewardsDistributable != nil && m.Roles[params.RoleHouse].rewardsDistributable != nil &&
+//@     m.Kinds[params.KindValidator].rewardsResidue != nil && big(m.Kinds[params.KindValidator].rewardsResidue) >= 0
+//@ func (*StateDB).GetValidatorsStat props C07
+//@ nobody
+//@ modifies nothing
+//@ ensures result1 == nil ==> result0 != nil
+//@ ensures result0 != nil ==> result0 == c07Stat(st) && c07StatWF(result0)
+// the pool counters exist when the statistics are read (they are not objects allocated later by the caller)
+//@ ensures result0 != nil ==> allocated(result0.Roles[params.RoleChancellor].rewardsDistributable) && allocated(result0.Roles[params.RoleSenator].rewardsDistributable) &&
+//@     allocated(result0.Roles[params.RoleHouse].rewardsDistributable) && allocated(result0.Kinds[params.KindValidator].rewardsResidue) &&
+//@     allocated(result0.Roles[params.RoleChancellor]) && allocated(result0.Roles[params.RoleSenator]) && allocated(result0.Roles[params.RoleHouse])
+
+// Pre-V5 read path (sorted, cached set): not used under the C07 precondition "protocol version 5".
+//@ func (*StateDB).GetValidators props C07
+//@ nobody
+//@ modifies nothing
+//@ func (*Validators).List props C07
+//@ nobody
+//@ modifies nothing
+
+// ---------------------------------------------------------------------------------------------------------------
+// Delegations: a delegation's tokens are part of the validator's Token, so the ledger moves with UpdateValidator only.
+// The delegation list itself (sorted slice, per-account index, DelegationBalance mirror) is C08's subject: assumed here.
+// ---------------------------------------------------------------------------------------------------------------
+
+//@ spec func c07HasDlg(v: *Validator, d: common.Address) bool
+
+//@ func (*Validator).GetDelegationFrom props C07
+//@ nobody
+//@ modifies nothing
+//@ ensures v != nil && (result != nil) == c07HasDlg(v, d)
+//@ ensures result != nil ==> fresh(result) && fresh(result.Token) && fresh(result.Stake) && result.Token != result.Stake && big(result.Token) >= 0
+
+//@ func (*Validator).UpdateDelegationFrom props C07
+//@ nobody
+//@ modifies v.Delegations
+
+//@ func (*StateDB).UpdateDelegator props C07
+//@ nobody
+//@ modifies all(stateObject.data)
+
+// Adding to / taking from a delegation moves exactly `tokenChanged` into / out of the validator's staked tokens.
+//@ func (*StateDB).UpdateDelegation props C07
+//@ requires [current] c07Current(val)
+//@ requires c07ValWF(val)
+//@ modifies all(stateObject.data), st.validatorsStatModified, all(ValKindStat.onlineCount), all(ValKindStat.offlineCount), c07Ledger, c07Tok, c07RD
+//@ let moved = tokenChanged != nil && big(tokenChanged) != 0 && (c07HasDlg(val, d) || big(tokenChanged) > 0)
+//@ ensures [noop] !moved ==> c07Ledger == old(c07Ledger) && c07Tok == old(c07Tok) && c07RD == old(c07RD) && result0 == val
+//@ ensures [moved] moved ==> c07Ledger == old(c07Ledger) + old(big(tokenChanged))
+//@ ensures [stored] moved ==> fresh(result0) && c07Current(result0) && c07ValWF(result0) && c07Addr(result0) == c07Addr(val) && result1 != nil &&
+//@     big(result0.Token) == old(big(val.Token)) + old(big(tokenChanged)) && result0.Status == val.Status && result0.Role == val.Role
+
+// Pending-relationship index of the staking trie: bookkeeping.
+//@ func (*StateDB).PendingRelationshipExist props C07
+//@ nobody
+//@ modifies nothing
+//@ func (*StateDB).GetCountOfDelegateTo props C07
+//@ nobody
+//@ modifies nothing
+//@ func (*StateDB).DelegatorPendingCount props C07
+//@ nobody
+//@ modifies nothing
+//@ func (*StateDB).ValidatorPendingCount props C07
+//@ nobody
+//@ modifies nothing
+//@ func (*StateDB).AddPendingRelationship props C07
+//@ nobody
+//@ modifies nothing
+
